@@ -51,6 +51,34 @@ def history(rng, nops):
     return lines
 
 
+def tlc_histories(ctx):
+    """spec -> impl: every complete command history of the small client language of spec/AllocGen.tla, enumerated by TLC (BFS);
+    returns a list of plan-line lists"""
+    import subprocess
+    md = os.path.join(vf.BUILD, "tlc", "allocgen_%d" % os.getpid())
+    cfg = os.path.join(ctx.work, "AllocGen.cfg")
+    with open(cfg, "w") as f:
+        f.write("CONSTANTS Depth = %d\n MinLen = %d\n MaxLive = %d\n Elts = {1, 48}\n Aligns = {16, 64, 4096}\n Counts = {0, 1, %s}\n"
+                "INIT Init\nNEXT Next\nINVARIANT Emit\nCONSTRAINT Bound\nCHECK_DEADLOCK FALSE\n" % (ctx.q(4, 6), ctx.q(4, 6), ctx.q(2, 2), ctx.q("3", "3, 1000")))
+    r = vf.sh(vf.tlc_cmd("AllocGen.tla", cfg, md, 4, "4g"), cwd=vf.SPEC, timeout=1800)
+    import shutil
+    shutil.rmtree(md, ignore_errors=True)
+    hs = []
+    for line in r.stdout.splitlines():
+        if line.startswith('"HIST '):
+            hist = json.loads(json.loads(line)[5:])
+            pl = []
+            for c in hist:
+                if c["op"] == "allocate":
+                    pl.append("al allocate:%d:%d - %d %s - - -" % (c["t"], c["a"], c["slot"], u64(c["n"]).ljust(64, b"\0").hex()))
+                else:
+                    pl.append("al deallocate:%d:%d - %d - - - -" % (c["t"], c["a"], c["slot"]))
+            hs.append(pl)
+    if r.returncode != 0 or not hs:
+        raise vf.InfraError("AllocGen produced no histories (rc=%d)\n%s" % (r.returncode, r.stdout[-1500:]))
+    return hs
+
+
 def annotate(e):
     parts = e["op"].split(":")
     e["kind"] = parts[0]
@@ -81,13 +109,19 @@ def body(ctx):
     allplans = []
     per = ctx.q(6, 25)
     nid = 0
+    # spec -> impl: the complete command histories enumerated by TLC from AllocGen.tla come first, the seeded random ones after them
+    gen = [] if ctx.replay else tlc_histories(ctx)
+    ctx.log("TLC-generated command histories (AllocGen): %d" % len(gen))
+    ctx.cov["tlc_generated_histories"] = len(gen)
+    nh += len(gen)
+    per = max(per, (nh + 63) // 64)          # at most 64 processes / traces
     groups = [list(range(i, min(i + per, nh))) for i in range(0, nh, per)]
     if ctx.replay:
         groups = [[0]]
     for gi, grp in enumerate(groups):
         evs = []
         for h in grp:
-            pl = lanes.replay_plan(ctx.replay) if ctx.replay else history(rng, nops)
+            pl = lanes.replay_plan(ctx.replay) if ctx.replay else (gen[h] if h < len(gen) else history(rng, nops))
             pth = os.path.join(ctx.work, "h%d.plan" % h)
             with open(pth, "w") as f:
                 f.write("\n".join(pl) + "\n")
